@@ -10,6 +10,7 @@ floats of the real code: exactly for counts / indices / names, with a stated tol
   eigst <c|s> <tol> <re...>                  -> `<n_positive> <n_zeros> <n_negative>`
   eigpf <c|s> <n> <|W|> <|N|>                -> `<pfactor row-major> <W_abs>`
   eigam <row>                                -> index of the most associated state
+  eigsw <initialised 0/1> <Tf stored> <values>  -> Tf used in every round of a sweep
 -/
 namespace Andes.Eig
 open Andes.Hex
@@ -112,6 +113,14 @@ def handleAm (args : List String) : String :=
     match ratsOfHex srow with
     | some l => toString (argmaxFirst l)
     | none => "bad-arg"
+  | _ => "bad-arity"
+
+def handleSw (args : List String) : String :=
+  match args with
+  | [si, stf, svals] =>
+    match boolOf si, ratOfHex stf, ratsOfHex svals with
+    | some i, some tf, some vals => showRats (sweepTf { initialized := i, tfStored := tf } vals)
+    | _, _, _ => "bad-arg"
   | _ => "bad-arity"
 
 end Andes.Eig
